@@ -1,6 +1,9 @@
 import Driver.Ops.Run
 import Driver.Ops.Balance
 import Driver.Ops.Register
+import Driver.Ops.Rematch
+import Driver.Ops.Audit
+import Driver.Ops.Equity
 /-! Line-protocol driver of the model: one JSON case per input line, one JSON answer per line.
     To add an op: write `Driver/Ops/<Name>.lean`, import it here, add one line to `opTable`
     (or to `outputTable` for a new output kind of op `run`). -/
@@ -11,12 +14,18 @@ def outputTable : List (String × Ops.OutputFn) := [
   ("txns", Ops.outTxns),
   ("balance", Ops.outBalance),
   ("register", Ops.outRegister),
-  ("register_all", Ops.outRegisterAll)
+  ("register_all", Ops.outRegisterAll),
+  ("equity", Ops.outEquity)
 ]
 
 /-- ops -/
 def opTable : List (String × (Json → R Json)) := [
-  ("run", Ops.opRun outputTable)
+  ("run", Ops.opRun outputTable),
+  ("rematch", Ops.opRematch),
+  ("peel", Ops.opPeel),
+  ("selects", Ops.opSelects),
+  ("audit", Ops.opAudit),
+  ("hash", Ops.opHash)
 ]
 
 def dispatch (j : Json) : R Json := do
